@@ -10,6 +10,7 @@ from harness.sources import explore, Exhausted
 from harness.drv_c05 import finite_choice
 
 from geneticengine.grammar.grammar import extract_grammar
+from geneticengine.random.sources import RandomSource
 from geneticengine.problems import SingleObjectiveProblem
 from geneticengine.representations.tree.treebased import TreeBasedRepresentation
 from geneticengine.representations.tree.initializations import (MaxDepthDecider, PositionIndependentGrowDecider)
@@ -54,10 +55,82 @@ def enumerate_set(g, decider, d, cap):
     return terms, sorted(set(errors)), True
 
 
-def one(spec, batch, stats, cap, prop):
+class _Proxy(RandomSource):
+    """a source whose raw draws come from whatever scripted source is plugged in: lets ONE representation object be driven
+    through many explorations"""
+    inner = None
+
+    def randint(self, min, max):
+        return self.inner.randint(min, max)
+
+    def random_float(self, min, max):
+        return self.inner.random_float(min, max)
+
+
+def enumerate_with(rep, proxy, cap):
+    seen, terms = set(), []
+
+    def run(src):
+        proxy.inner = src
+        return rep.create_genotype(proxy)
+    try:
+        for script, src, res in explore(run, cap=64, max_leaves=cap):
+            if isinstance(res, Exception):
+                continue
+            t = term_of(res)
+            k = term_key(t)
+            if k not in seen:
+                seen.add(k)
+                terms.append(t)
+    except Exhausted:
+        return terms[: max(cap // 8, 50)], False
+    return terms, True
+
+
+def one_lent(spec, batch, stats, cap):
+    """ONE representation object configured for grow at depth d: what it can create is the bounded language before AND
+    after it was lent to initialisers that create with deciders of their own"""
+    from geneticengine.random.sources import NativeRandomSource
+    from geneticengine.representations.tree.operators import GrowInitializer
     b = GR.build(spec)
     try:
         g = extract_grammar(b.considered, b.start)
+        decl = b.oracle()
+        mind = int(g.get_min_tree_depth())
+        if mind > 12 or GR.lang_size(spec, mind + 1) > cap // 4:
+            return
+        d = mind + 1
+        proxy = _Proxy()
+        rep = TreeBasedRepresentation(g, MaxDepthDecider(proxy, g, d))
+        evs = []
+        t1, c1 = enumerate_with(rep, proxy, cap)
+        evs.append({"e": "impl_set", "decider": "grow", "d": d, "programs": t1, "errors": [], "phase": "single", "complete": c1})
+        try:
+            rs = NativeRandomSource(5)
+            list(FullInitializer(max(mind, 1)).initialize(None, rep, rs, 2))
+            list(GrowInitializer().initialize(None, rep, rs, 2))
+        except Exception:
+            pass
+        t2, c2 = enumerate_with(rep, proxy, cap)
+        evs.append({"e": "impl_set", "decider": "grow", "d": d, "programs": t2, "errors": [], "phase": "single", "complete": c2})
+        batch.trace(spec["id"] + "/lent", evs, {"k": "c04", "g": decl})
+        stats["events"] += 2
+        stats["programs"] += len(t1) + len(t2)
+    finally:
+        b.dispose()
+
+
+def one(spec, batch, stats, cap, prop, concrete_only=False):
+    b = GR.build(spec)
+    try:
+        considered = b.considered
+        if concrete_only:
+            # only the concrete classes are handed to extract_grammar (intermediate abstract types are found through them)
+            abstract_names = {c["name"] for c in spec["classes"] if c["abstract"]}
+            if not any(c["abstract"] and c["parent"] for c in spec["classes"]):
+                return
+            considered = [c for c in b.considered if c.__name__ not in abstract_names]
+        g = extract_grammar(considered, b.start)
         decl = b.oracle()
         mind = int(g.get_min_tree_depth())
         if mind > 12:
@@ -76,7 +149,7 @@ def one(spec, batch, stats, cap, prop):
                 if not complete:
                     break
         if evs:
-            batch.trace(spec["id"], evs, {"k": "c04", "g": decl})
+            batch.trace(spec["id"] + ("/concrete-only" if concrete_only else ""), evs, {"k": "c04", "g": decl})
             stats["events"] += len(evs)
     finally:
         b.dispose()
@@ -178,6 +251,10 @@ def _job(args):
     c, stats = _Collect(), {"events": 0, "programs": 0}
     if kind == "one":
         one(spec, c, stats, cap, prop)
+    elif kind == "concrete-only":
+        one(spec, c, stats, cap, prop, concrete_only=True)
+    elif kind == "lent":
+        one_lent(spec, c, stats, cap)
     elif kind == "redeclared":
         one_redeclared(spec, c, stats, cap)
     else:
@@ -224,6 +301,10 @@ def main():
         for spec in specs + fam[: (10 if quick else 100)]:
             if GR.lang_size(spec, 3) <= cap:
                 jobs.append(("redeclared", spec, cap, a.prop))
+        for spec in specs + fam[: (12 if quick else 150)]:
+            jobs.append(("concrete-only", spec, cap, a.prop))
+        for spec in specs + fam[: (6 if quick else 80)]:
+            jobs.append(("lent", spec, cap, a.prop))
     run_jobs(jobs, batch, stats, 4 if quick else 14)
     batch.traces = finalize(batch.traces)
     paths = batch.shards(a.out, a.shards)
